@@ -32,7 +32,7 @@ Init == /\ \E tr \in [1..M -> [1..N -> T]], an \in [1..M -> AnyT], c1 \in ChainO
                     on_notrans |-> TRUE, on_output |-> TRUE, chain |-> <<c1, c2>>, xchain |-> <<FALSE, TRUE>>]
         /\ st = 0 /\ out = 0
         /\ res = F!Result("none", 0, 0, <<>>)
-Data == [tag : {5}, chain : {0, 1}, cond : {0, 1}, condf : {0, 1}, xc : {0, 1}]
+Data == [tag : {5}, chain : {0, 1}, cond : {0, 1}, condf : IF ChainMode = "none" THEN {0, 1} ELSE {1}, xc : {0, 1}]
 Events == {[goto |-> g, e |-> 0, d |-> d] : g \in 1..N, d \in {[tag |-> 5, chain |-> c, cond |-> 1, condf |-> 1, xc |-> 0] : c \in {0, 1}}}
           \cup {[goto |-> 0, e |-> e, d |-> d] : e \in 0..M, d \in Data}
 Send == \E ev \in Events :
